@@ -391,6 +391,66 @@ func c06Exec(scAny any, c *simcheck.Ctx) *simcheck.Violation {
 			return simcheck.V("acyclic-load-failed", "after a load on a flaky disk, a fault-free load of the acyclic graph fails: %v", res.LoadErr)
 		}
 	}
+	// an unreliable network while the required projects are fetched (cold cache): one
+	// repository operation - a dial, a listing, a revision lookup, the checkout of one file -
+	// fails. The load may fail; it must end, leave nobody waiting, and the next load, with
+	// the network back, behaves as before (nothing half-fetched may have entered the cache).
+	if nt := c.Tapes.Get("network"); len(h.p.Exts) > 0 && nt.Intn(2) == 0 {
+		h.w.wipeCache()
+		h.w.netFailAt = 1 + nt.Intn(14)
+		h.w.events = nil
+		res := h.build(7, &opSpec{Op: "load-only"}, h.pc, nil)
+		faults := h.w.netFaults
+		h.w.netFailAt = 0
+		if v := procFailure(res); v != nil {
+			if v.Class != simcheck.EngineError {
+				v.Msg = fmt.Sprintf("loading while repository operation %d fails: %s", h.w.netFailAt, v.Msg)
+			}
+			return v
+		}
+		c.St.Count("loads_on_an_unreliable_network", 1)
+		if faults == 0 {
+			c.St.Count("loads_on_an_unreliable_network_without_a_fault", 1)
+			if !cyclic && !broken && res.LoadErr != nil {
+				return simcheck.V("acyclic-load-failed", "a load on a cold module cache failed although no fault was injected: %v", res.LoadErr)
+			}
+		} else if res.LoadErr != nil {
+			c.St.Count("loads_failed_on_an_unreliable_network", 1)
+		}
+		loading := map[string]int{}
+		for _, e := range h.w.events {
+			if e.Kind == "ModuleLoading" {
+				loading[e.Label]++
+			}
+		}
+		for l, n := range loading {
+			if n > 1 {
+				return simcheck.V("module-loaded-twice", "module %s was executed %d times in one load (on an unreliable network)", l, n)
+			}
+		}
+		h.w.events = nil
+		h.lastProj = nil
+		res = h.build(8, &opSpec{Op: "load-only"}, h.pc, nil)
+		if v := procFailure(res); v != nil {
+			return v
+		}
+		if !cyclic && !broken && res.LoadErr != nil {
+			return simcheck.V("acyclic-load-failed", "after a load on an unreliable network, a load with the network back fails: %v", res.LoadErr)
+		}
+		if !cyclic && !broken {
+			var got []string
+			for _, t := range res.Proj.Targets() {
+				got = append(got, t.Label().String())
+			}
+			for _, f := range res.Proj.Flags() {
+				got = append(got, "flag:"+f.Name)
+			}
+			sort.Strings(got)
+			if want := h.p.expectedTargets(); strings.Join(got, " ") != strings.Join(want, " ") {
+				return simcheck.V("wrong-targets", "after a load on an unreliable network, the loaded targets/flags %v differ from the project's %v", got, want)
+			}
+		}
+	}
 	if cyclic || broken || len(h.p.Modules) == 0 || h.lastProj == nil {
 		return nil
 	}
